@@ -1909,7 +1909,16 @@ impl Blockchain {
             while let Some(block) = blocks.pop_front() {
                 let peer_index = block.routed_from_peer;
                 let block_id = block.id;
+                #[cfg(saito_verif)]
+                let verif_pre = crate::core::consensus::verif_hook::before_add(
+                    self,
+                    &block,
+                    self.initial_loading_completed
+                        || configs.get_blockchain_configs().initial_loading_completed,
+                );
                 let result = self.add_block(block, storage, &mut mempool, configs).await;
+                #[cfg(saito_verif)]
+                crate::core::consensus::verif_hook::after_add(self, verif_pre, &result);
                 match result {
                     AddBlockResult::BlockAddedSuccessfully(
                         block_hash,
